@@ -174,6 +174,9 @@ func writeNewick(root *newick.Node) ([]byte, error) {
 	if p := catch(func() { werr = root.Write(&w) }); p != nil || werr != nil {
 		return nil, fmt.Errorf("Write failed: panic=%v err=%v", p, werr)
 	}
+	if err := samePlain(root.Write, w.Bytes()); err != nil {
+		return nil, err
+	}
 	if err := writeAfterFailure(root.Write, w.Bytes()); err != nil {
 		return nil, err
 	}
